@@ -174,6 +174,11 @@ func (w *sworld) opBGPAdv() bool {
 	ai := w.pick(3, "aggregation")
 	agg4 := []int32{32, 30, 28}[ai]
 	agg6 := []int32{128, 126, 124}[ai]
+	if w.pick(6, "independent v6 aggregation") == 0 {
+		// the IPv6 length no longer follows the IPv4 one: two advertisements with different local
+		// preferences may then differ in one family only, which a dual-stack pool must refuse
+		agg6 = []int32{128, 126, 124}[w.pick(3, "aggregation v6")]
+	}
 	tooShort := 10
 	if w.k.bgpFocus {
 		tooShort = 40
